@@ -138,6 +138,11 @@ def C01(tier):
                      consts={"P4": 4, "P5": 2, "SZ": 0, "NSFIX": 10, "LSFIX": 20}, loop=8192, depth=300, enctimeout=120, hang_probe=True, hang_timeout=30, validate_cubes=2,
                      bounds="time/memory budget probe on 10 structured graphs with 21..145 nodes and up to 70 layers (%s) x {greedy,dfs} x {NS,LP}, default positioner and router, no sizes; "
                             "the engine's loop (8192) / recursion (300) / time (120 s) budgets are the 'generous budget'; an exhausted budget is confirmed natively under a 30 s watchdog" % ", ".join(big_shapes())),
+           layout_ob("layout-returns-splines", "Harness_E_C01", shapes(4, 4, selfloops=False, connected=True)[::nm(q, 6, 1)], {"P1": [0] if q else [0, 1], "SZ": [0] if q else [0, 5]},
+                     consts={"P2": 0, "P4": 4, "P5": 4, "NSFIX": 10, "LSFIX": 20}, validate_cubes=0, enctimeout=60, replay_timeout=20,
+                     bounds="BUG HUNTING ONLY (the spline code divides by 3, multiplies by 0.2, normalises: float rounding is not modelled there, so unsat is not a proof): "
+                            "%s connected loop-free edge lists N<=4 M<=4 x spline routing, default pipeline, no sizes%s; failures at the three listed call sites are known "
+                            "finding G11s" % nm(q, ("every 6th of the", ""), ("all", " / concrete sizes"))),
            layout_ob("layout-returns-bk", "Harness_E_C01", shapes(3, 3) if q else shapes(4, 3), {"BK": [-1, 0, 1, 2, 3], "P2": [0, 1]},
                      consts={"P1": 0, "P4": 2, "P5": 2, "SZ": 5, "NSFIX": 10, "LSFIX": 20}, loop=96,
                      bounds="canonical edge lists x Brandes-Koepf (balanced and forced layouts 0..3) x {NS,LP}; concrete heterogeneous sizes"),
